@@ -72,6 +72,9 @@ def net_runs(c, cfgs, runs, prop_sigs):
         res = c.validate_traces("node", "KardiaNodeTrace", "KardiaNodeTrace.cfg", files, tag="KardiaNodeTrace " + name)
         for r in res:
             base = os.path.basename(r["path"])
+            for d in r.get("deviations") or []:
+                # named deviations of the trace specification (tolerated there so that the rest of the run is validated)
+                c.report("node:restart:%s" % d, "real run %s: %s (see KardiaNodeTrace.tla RestartStep)" % (base, d), dict(trace=base))
             if r["accepted"]:
                 continue
             if r["violated"]:
